@@ -211,11 +211,11 @@ def on_abnormal(case, kind, info):
         return K.result("violated", key="hang/" + kind, what="round trip did not finish (%s): chain %s target %s block %s chunk %s" % (
             kind, G.chain_label(case["chain"]), case["target"], case["block"], case["chunk"]))
     if kind.startswith("crash:") and "KILL" not in kind:
-        if case.get("chunk") and case["chunk"] <= 64 and any(c["f"] == "PPMD" for c in case["chain"]):
+        if any(c["f"] == "PPMD" for c in case["chain"]):
             members = [b for _, b in K.mat_members(case["members"])]
-            if K.pyppmd_small_max_length_crashes(case["chain"], members, case["block"], case["chunk"]):
-                return K.result("violated", key="codec-library/pyppmd-small-max-length-crash",
-                                what="pyppmd's decoder alone, in a fresh process, dies from a signal when handed this packed stream and asked for %d bytes per call (here: %s)" % (case["chunk"], kind))
+            if K.pyppmd_decoder_crashes_alone(case["chain"], members, case["block"], case["chunk"]):
+                return K.result("violated", key="codec-library/pyppmd-decoder-crash",
+                                what="pyppmd's decoder alone, in a fresh process, dies from a signal on the stream its own encoder makes of these members (here: %s)" % kind)
         return K.result("violated", key="interpreter-died/" + kind, what="worker died with %s" % kind)
     return None
 
